@@ -7,6 +7,8 @@ Regenerates lean/AndaVerif/Gen/KipGuardTables.lean from the KIP parser sources:
   rs/anda_kip/src/parser/kml.rs      ASSERTION_IMMUTABLE, EVIDENCE_IMMUTABLE, PROPOSITION_IMMUTABLE,
                                      ASSERT_MEMBERS, the variants `clause_where` gives a WHERE block,
                                      the selector names of `upsert_has_stable_identity_selector`
+  rs/anda_kip/src/parser.rs          the step order of `parse_kip` / `parse_kml` (budget, grammar, validator, return) and
+                                     the validator each arm of `validate_command` calls
   rs/anda_kip/src/ast.rs             the `MutationClause` variant list (variant, payload struct), per payload
                                      struct the mutation-relevant fields (name, block kind), the
                                      `UpdateAction` variant list, the arms of `MutationClause::handle`
@@ -240,6 +242,7 @@ def main():
         common = strip_comments(open(os.path.join(base, "parser", "common.rs")).read())
         kml = strip_comments(open(os.path.join(base, "parser", "kml.rs")).read())
         ast = strip_comments(open(os.path.join(base, "ast.rs")).read())
+        parser_rs = strip_comments(open(os.path.join(base, "parser.rs")).read())
     except OSError as e:
         die(f"cannot read source: {e}")
 
@@ -325,6 +328,41 @@ def main():
     if not handle_variants:
         die("MutationClause::handle: no arm returns a handle")
 
+    # the text route: in parse_kip / parse_kml the validator runs on the grammar's result before it is returned
+    def route(fn, validate_re, validate_name):
+        body = fn_body(parser_rs, fn, "parser.rs")
+        marks = []
+        for name, rx in [("budget", r"validate_parser_budget\s*\("), ("grammar", r"\.\s*parse\s*\(\s*input\s*\)"),
+                         (validate_name, validate_re), ("return", r"Ok\s*\(\s*\w+\s*\)\s*$")]:
+            ms = list(re.finditer(rx, body))
+            if len(ms) != 1:
+                die(f"{fn}: expected exactly one `{name}` step, found {len(ms)}")
+            marks.append((ms[0].start(), name))
+        if re.search(r"\breturn\s+Ok\b", body):
+            die(f"{fn}: an early `return Ok` bypasses the step order")
+        return [n for _, n in sorted(marks)]
+
+    kip_order = route("parse_kip", r"\bvalidate_command\s*\(\s*&\s*\w+\s*\)\s*\?", "validate_command")
+    kml_order = route("parse_kml", r"\bkml\s*::\s*validate_plan\s*\(\s*&\s*\w+\s*\)\s*\?", "validate_plan")
+    # validate_command: which validator each arm calls
+    vc = fn_body(parser_rs, "validate_command", "parser.rs")
+    arms = []
+    m = re.search(r"Command\s*::\s*Kml\s*\(\s*\w+\s*\)\s*=>\s*kml\s*::\s*(\w+)\s*\(", vc)
+    if not m:
+        die("validate_command: the Kml arm no longer calls a kml:: validator directly")
+    arms.append(("Kml", m.group(1)))
+    m = re.search(r"Command\s*::\s*Meta\s*\(\s*MetaCommand\s*::\s*ExportCapsule\s*\(\s*(\w+)\s*\)\s*\)\s*=>\s*\{", vc)
+    if not m:
+        die("validate_command: the Meta(ExportCapsule) arm is gone")
+    eb = vc[m.end() - 1:matching(vc, m.end() - 1, "{", "}")]
+    ev = m.group(1)
+    steps = []
+    i1 = re.search(re.escape(ev) + r"\s*\.\s*where_clauses\s*\.\s*is_empty\s*\(\s*\)", eb)
+    i2 = re.search(r"kml\s*::\s*(\w+)\s*\(\s*&\s*" + re.escape(ev) + r"\s*\.\s*where_clauses\s*\)", eb)
+    if not i1 or not i2 or "Err" not in eb[i1.end():i2.start()]:
+        die("validate_command: ExportCapsule no longer refuses an empty selection before validating it")
+    arms.append(("Meta::ExportCapsule", "nonempty+" + i2.group(1)))
+
     L = []
     L.append("/-")
     L.append("GENERATED by bin/translate/c16_kip_guard_tables.py from rs/anda_kip/src/{parser/common.rs,parser/kml.rs,ast.rs}.")
@@ -361,6 +399,11 @@ def main():
     L.append("/-- `UpdateAction` variants with their block kind -/")
     L.append("def updateActions : List (String × String) := " +
              lean_list([f"({lean_str(v)}, {lean_str(k)})" for v, k in action_rows]))
+    L.append("")
+    table("parseKipOrder", kip_order, "`parse_kip` (parser.rs): order of the budget scan, the grammar, `validate_command(&command)?` and the final `Ok(command)`")
+    table("parseKmlOrder", kml_order, "`parse_kml` (parser.rs): the same with `kml::validate_plan(&statement)?`")
+    L.append("/-- `validate_command`: the validator each arm hands the tree to -/")
+    L.append("def validateCommandArms : List (String × String) := [" + ", ".join(f"({lean_str(a)}, {lean_str(b)})" for a, b in arms) + "]")
     L.append("")
     L.append("theorem gen_kip_guard_tables_nonempty :")
     L.append("    protectedFields ≠ [] ∧ assertionImmutable ≠ [] ∧ evidenceImmutable ≠ [] ∧ propositionImmutable ≠ [] ∧")
